@@ -1,4 +1,5 @@
 import MesaModel.Model.Viz
+import MesaModel.Model.VizLayers
 /-!
 Line-protocol driver for the Viz model (C20).  One output line per input line.
 Producer: harness/viz_common.py.
@@ -13,8 +14,10 @@ Producer: harness/viz_common.py.
   place A X Y | move A X Y | remove A | ghost A
   collect | collectd COLOR SIZE MARKER ZORDER
   draw | altair | heap | drawc | altairc   (…c: through the solara component)
-  layer v…                           property layer values, x-major (W*H ints)
-  drawlayer cmap|color|cmapauto|colorauto
+  layer v…                           property layer `v`: values, x-major (W*H ints);  layern NAME v…: layer NAME
+  drawlayers SPEC…                   SPEC = NAME:MODE:ALPHA:VMIN:VMAX:CBAR, MODE ∈ color=C cmap=C none, ALPHA percent,
+                                     VMIN / VMAX ints, CBAR ∈ y n; `-` for a key the portrayal leaves out
+  drawlayer cmap|color|cmapauto|colorauto     short for  drawlayers v:cmap=viridis|color=red:-:0|-:9|-:n
 
  params scenarios
   sig NAME:KIND:d|n …                KIND ∈ po pk vp ko vk
@@ -60,7 +63,7 @@ structure St where
   params : Bool := false
   heap : Heap := []
   portray : List (Nat × Ref) := []
-  layer : Option Layer := none
+  layers : List (String × Layer) := []
   sig : Option (List Param) := none
 
 def St.portrayal (st : St) : Portrayal := fun a => st.portray.lookup a
@@ -118,12 +121,84 @@ def fmtOptInt : Option Int → String
   | none => "?"
   | some v => toString v
 
-def fmtLayer (fam : Family) (L : Layer) : String :=
-  if fam.isOrthogonal then
-    (imshowRows L).zipIdx.foldl (fun acc (row, r) => acc ++ s!" r{r}=" ++ ",".intercalate (row.map fmtOptInt)) "ok img"
-  else if fam.isHex then
-    (hexColors L).zipIdx.foldl (fun acc (v, k) => acc ++ s!" {k % L.w},{k / L.w}={fmtOptInt v}") "ok hex"
-  else "err NotImplemented"
+/-- a fraction in lowest terms: `0`, `1`, `n/d` -/
+def fmtFrac (f : Frac) : String :=
+  let g := Nat.gcd f.num.natAbs f.den
+  if g = 0 then "?" else
+  let n := f.num / (g : Int)
+  let d := f.den / g
+  if d = 1 then toString n else s!"{n}/{d}"
+
+def fmtOptFrac : Option Frac → String
+  | none => "?"
+  | some f => fmtFrac f
+
+def fmtCbar : Option (Int × Int) → String
+  | none => "-"
+  | some (lo, hi) => s!"{lo}..{hi}"
+
+def fmtRows {α} (f : α → String) (rows : List (List α)) : String :=
+  rows.zipIdx.foldl (fun acc (row, r) => acc ++ s!" r{r}=" ++ ",".intercalate (row.map f)) ""
+
+def fmtCells {α} (f : α → String) (w : Nat) (cells : List α) : String :=
+  cells.zipIdx.foldl (fun acc (v, k) => acc ++ s!" {k % w},{k / w}={f v}") ""
+
+def fmtDrawn (w : Nat) (d : DrawnLayer) : String :=
+  match d.pic with
+  | .imgRgba c rows => s!"{d.name} img color={c} cbar={fmtCbar d.cbar}" ++ fmtRows fmtOptFrac rows
+  | .imgCmap cm a lo hi rows =>
+    s!"{d.name} imgmap cmap={cm} alpha={a} vmin={lo} vmax={hi} cbar={fmtCbar d.cbar}" ++ fmtRows fmtOptInt rows
+  | .hexRgba c cells => s!"{d.name} hex color={c} cbar={fmtCbar d.cbar}" ++ fmtCells fmtOptFrac w cells
+  | .hexCmap cm a cells => s!"{d.name} hexmap cmap={cm} alpha={a} cbar={fmtCbar d.cbar}" ++ fmtCells fmtOptFrac w cells
+
+def fmtLayers (w : Nat) : Except LayerErr (List DrawnLayer) → String
+  | .error .attribute => "err Attribute"
+  | .error .value => "err Value"
+  | .ok ds => ds.foldl (fun acc d => acc ++ " | " ++ fmtDrawn w d) "ok"
+
+def optField {α} (parse : String → Option α) (s : String) : Option (Option α) :=
+  if s = "-" then some none else (parse s).map some
+
+def parseMode (s : String) : Option LayerMode :=
+  match s.splitOn "=" with
+  | ["none"] => some .neither
+  | ["color", c] => if c = "" then none else some (.color c)
+  | ["cmap", c] => if c = "" then none else some (.colormap c)
+  | _ => none
+
+def parseYN : String → Option Bool
+  | "y" => some true | "n" => some false | _ => none
+
+def parseSpec (s : String) : Option (String × LayerPortrayal) :=
+  match s.splitOn ":" with
+  | [name, mode, alpha, vmin, vmax, cbar] => do
+    let mode ← parseMode mode
+    let alpha ← optField (·.toNat?) alpha
+    let vmin ← optField (·.toInt?) vmin
+    let vmax ← optField (·.toInt?) vmax
+    let cbar ← optField parseYN cbar
+    if name = "" then none
+    else pure (name, { mode, alpha := alpha.getD 100, vmin, vmax, colorbar := cbar.getD true })
+  | _ => none
+
+/-- the short forms of `drawlayer` -/
+def legacySpec : String → Option (String × LayerPortrayal)
+  | "cmap" => some ("v", { mode := .colormap "viridis", vmin := some 0, vmax := some 9, colorbar := false })
+  | "color" => some ("v", { mode := .color "red", vmin := some 0, vmax := some 9, colorbar := false })
+  | "cmapauto" => some ("v", { mode := .colormap "viridis", colorbar := false })
+  | "colorauto" => some ("v", { mode := .color "red", colorbar := false })
+  | _ => none
+
+def setLayer (st : St) (sp : Space) (name : String) (vs : List String) : St × String :=
+  match vs.mapM (·.toInt?) with
+  | none => (st, "bad-op")
+  | some vals =>
+    let L : Layer := { w := sp.w, h := sp.h, vals }
+    -- only grids can be given a property layer
+    if name = "" || !(sp.fam.isOrthogonal || sp.fam.isHex) || !L.wellFormed then (st, "bad-op")
+    else if (st.layers.lookup name).isSome then
+      ({ st with layers := st.layers.map fun nl => if nl.1 == name then (name, L) else nl }, "ok")
+    else ({ st with layers := st.layers ++ [(name, L)] }, "ok")
 
 def parseKind : String → Option Kind
   | "po" => some .posOnly | "pk" => some .posOrKw | "vp" => some .varPos
@@ -250,19 +325,20 @@ def stepLine (st : St) (ws : List String) : St × String :=
       | .ok rows => (st, fmtAltair rows)
       | .error e => (st, fmtErr e)
   | ["heap"] => withSpace st fun _ => (st, fmtHeap st.heap)
-  | "layer" :: vs =>
-    withSpace st fun sp =>
-      match vs.mapM (·.toInt?) with
-      | none => (st, "bad-op")
-      | some vals =>
-        let L : Layer := { w := sp.w, h := sp.h, vals }
-        if L.wellFormed then ({ st with layer := some L }, "ok") else (st, "bad-op")
+  | "layer" :: vs => withSpace st fun sp => setLayer st sp "v" vs
+  | "layern" :: name :: vs => withSpace st fun sp => setLayer st sp name vs
   | ["drawlayer", mode] =>
-    -- the mode (colormap / single colour, explicit / automatic range) only changes colours, not orientation
     withSpace st fun sp =>
-      match st.layer with
+      match legacySpec mode with
       | none => (st, "bad-op")
-      | some L => if ["cmap", "color", "cmapauto", "colorauto"].contains mode then (st, fmtLayer sp.fam L) else (st, "bad-op")
+      | some spec => (st, fmtLayers sp.w (drawLayers sp.fam st.layers [spec]))
+  | "drawlayers" :: specs =>
+    withSpace st fun sp =>
+      match specs.mapM parseSpec with
+      | none => (st, "bad-op")
+      | some ps =>
+        -- the request is a dict: one entry per name
+        if (ps.map (·.1)).Nodup then (st, fmtLayers sp.w (drawLayers sp.fam st.layers ps)) else (st, "bad-op")
   | "sig" :: ps =>
     if !st.params then (st, "bad-op") else
     match ps.mapM parseParam with
